@@ -177,7 +177,9 @@ func TestC13(t *testing.T) {
 	r.Rule = "every valid packet of rtr.Cases (shape x position x interfaces x arrival kind) as EPIC-HP, role of the router = hop it " +
 		"validates last (penultimate N-2 / last N-1 / other) x {single, multi BR} x 2 keys x source {IPv4, IPv6} x extension headers " +
 		"x first-info-field timestamp {same, different from the current segment's}; at penultimate/last: packet timestamps at " +
-		"-10s, -3s-tick, -3s, -3s+tick, ~0, +1s-tick, +1s, +1s+tick, +2s, +10s (exact under the bubble clock) with valid HVF; 8 HVF " +
+		"-10s, -3s-tick, -3s, -3s+tick, ~0, +1s-tick, +1s, +1s+tick, +2s, +10s (exact under the bubble clock) with valid HVF; the " +
+		"extreme 32-bit packet timestamps 0, 1, 0x7fffffff, 0x80000000, 0xfffffffe, 0xffffffff x first-info-field ages {0,1,2,3,5 s and " +
+		"the age that makes that packet fresh -5,-2,0,+1,+2,+5 s}, plus whole packets built on segments 0 s and 2 s old; 8 HVF " +
 		"bit flips, HVF over each wrong MAC input (18 deviations), P/L swapped, other field garbage; at other hops: stale/future " +
 		"timestamp and garbage HVFs must not matter; hop-MAC defect: same SCMP as the SCION carriage; cross-over into the " +
 		"penultimate AS additionally through ingress router + real sibling egress router. distinct key = case+variant+deviation"
@@ -249,262 +251,332 @@ func TestC13(t *testing.T) {
 				cf := cfgs[ci]
 				rt := routers[ci].a
 				cfg := rtr.StdCfg(cf.multi, cf.key)
-				cases := rtr.Cases(&cfg, cf.key, infoTS, 63)
-				for cidx := range cases {
-					c := &cases[cidx]
-					n := c.Pkt.NumHops()
-					v := c.V[len(c.V)-1]
-					role := "other"
-					switch v.Hop {
-					case n - 1:
-						role = "last"
-					case n - 2:
-						role = "penultimate"
-					}
-					viaXover := len(c.V) == 2
-					roleX := role
-					if role == "penultimate" && viaXover {
-						roleX = "penultimate-entered-at-crossover"
-					}
-					checker := "this-router"
-					if role == "penultimate" && !c.EgressOwn && !c.Deliver {
-						checker = "sibling-egress-router"
-					}
-					srcVariants := []rtr.Host{c.Pkt.Src}
-					if c.Pkt.Src.Kind == rtr.HostV4 {
-						srcVariants = append(srcVariants, rtr.V6("fd00::1:"+fmt.Sprintf("%x", 0x100+cidx%200)))
-					}
-					for si, src := range srcVariants {
-						for ext := 0; ext < 4; ext++ {
-							if ext != 0 && ext != 3 && !mc.Thorough() {
-								continue
-							}
-							for tsv := 0; tsv < 2; tsv++ {
-								// tsv=1: the first info field's timestamp differs from that of the segment being validated
-								firstSegFree := v.Inf != 0 && c.V[0].Inf != 0
-								if tsv == 1 && !firstSegFree {
+				// case sets: the main one (segments 100 s old) and, for the extreme packet timestamps, segments created
+				// 0 s and 2 s ago (all segments of a packet share the timestamp, so single-segment paths are included)
+				type caseSet struct {
+					ts          uint32
+					extremeOnly bool
+				}
+				sets := []caseSet{{infoTS, false}}
+				if phase == 0 {
+					sets = append(sets, caseSet{baseSec, true}, caseSet{baseSec - 2, true})
+				}
+				for _, set := range sets {
+					cases := rtr.Cases(&cfg, cf.key, set.ts, 63)
+					for cidx := range cases {
+						c := &cases[cidx]
+						n := c.Pkt.NumHops()
+						v := c.V[len(c.V)-1]
+						role := "other"
+						switch v.Hop {
+						case n - 1:
+							role = "last"
+						case n - 2:
+							role = "penultimate"
+						}
+						viaXover := len(c.V) == 2
+						roleX := role
+						if role == "penultimate" && viaXover {
+							roleX = "penultimate-entered-at-crossover"
+						}
+						checker := "this-router"
+						if role == "penultimate" && !c.EgressOwn && !c.Deliver {
+							checker = "sibling-egress-router"
+						}
+						srcVariants := []rtr.Host{c.Pkt.Src}
+						if c.Pkt.Src.Kind == rtr.HostV4 {
+							srcVariants = append(srcVariants, rtr.V6("fd00::1:"+fmt.Sprintf("%x", 0x100+cidx%200)))
+						}
+						if set.extremeOnly && role == "other" {
+							continue
+						}
+						for si, src := range srcVariants {
+							for ext := 0; ext < 4; ext++ {
+								if ext != 0 && ext != 3 && !mc.Thorough() {
 									continue
 								}
-								variant := fmt.Sprintf("multi=%v/key%x/src%d/ext%d/ts%d", cf.multi, cf.key[0], si, ext, tsv)
-								mk := func(k int64) rtr.Pkt {
-									p := c.Pkt.Clone()
-									p.Src = src
-									p.SetUDP(40001, 40002, []byte("verif-payload"))
-									extVariant(&p, ext)
-									p.PathType = rtr.PathEPIC
-									p.EpicCtr = 0x02000009
-									firstTS := infoTS
-									_ = firstTS
-									if tsv == 1 {
-										firstTS = infoTS - 21
-										p.Segs[0].TS = firstTS
-										k += int64(21 * time.Second / c13Tick) // keep the sender time: 21 s = exactly 10^6 ticks
-									}
-									p.EpicTS = uint32(k - 1)
-									return p
+								if set.extremeOnly && (ext != 0 || si != 0) {
+									continue
 								}
-								auth := func(p *rtr.Pkt) [16]byte {
-									hp := p.HopRef(v.Hop)
-									return rtr.FullHopMAC(cf.key, v.Sigma, v.TS, hp.Exp, hp.In, hp.Eg)
-								}
-								setHVF := func(p *rtr.Pkt, mine, other [4]byte) {
-									if role == "last" {
-										p.LHVF, p.PHVF = mine, other
-									} else {
-										p.PHVF, p.LHVF = mine, other
+								for tsv := 0; tsv < 2; tsv++ {
+									// tsv=1: the first info field's timestamp differs from that of the segment being validated
+									firstSegFree := v.Inf != 0 && c.V[0].Inf != 0
+									if tsv == 1 && (!firstSegFree || set.extremeOnly) {
+										continue
 									}
-								}
-								otherAuth := rtr.FullHopMAC(rtr.KeyOther, 0x7777, infoTS, 63, 41, 42)
-								judgeValid := func(name string, vd verdict, mustAccept bool) {
-									key := c.Name + "|" + variant + "|" + name
-									r.Case(key, true)
-									if vd.res.Panic != nil {
-										r.Violation("panic", map[string]any{"case": key, "panic": fmt.Sprint(vd.res.Panic)})
-										return
+									variant := fmt.Sprintf("multi=%v/key%x/src%d/ext%d/ts%d", cf.multi, cf.key[0], si, ext, tsv)
+									mk := func(k int64) rtr.Pkt {
+										p := c.Pkt.Clone()
+										p.Src = src
+										p.SetUDP(40001, 40002, []byte("verif-payload"))
+										extVariant(&p, ext)
+										p.PathType = rtr.PathEPIC
+										p.EpicCtr = 0x02000009
+										firstTS := infoTS
+										_ = firstTS
+										if tsv == 1 {
+											firstTS = infoTS - 21
+											p.Segs[0].TS = firstTS
+											k += int64(21 * time.Second / c13Tick) // keep the sender time: 21 s = exactly 10^6 ticks
+										}
+										p.EpicTS = uint32(k - 1)
+										return p
 									}
-									if !mustAccept {
-										return
+									auth := func(p *rtr.Pkt) [16]byte {
+										hp := p.HopRef(v.Hop)
+										return rtr.FullHopMAC(cf.key, v.Sigma, v.TS, hp.Exp, hp.In, hp.Eg)
 									}
-									if !vd.forwarded {
-										r.Violation("fresh-valid-epic-rejected:"+roleX, map[string]any{"case": key, "disp": dispName(vd.res.Fast.Disp),
-											"packet": fmt.Sprintf("%x", vd.raw), "ingress": fmt.Sprint(c.In)})
-										return
+									setHVF := func(p *rtr.Pkt, mine, other [4]byte) {
+										if role == "last" {
+											p.LHVF, p.PHVF = mine, other
+										} else {
+											p.PHVF, p.LHVF = mine, other
+										}
 									}
-									if vd.res.Fast.Egress != c.EgressIf || !bytes.Equal(vd.res.Out, c.ExpectedOut(vd.raw, vd.lay)) {
-										r.Violation("epic-output-differs-from-embedded-scion-processing:"+role, map[string]any{"case": key,
-											"egress": vd.res.Fast.Egress, "want_egress": c.EgressIf, "got": fmt.Sprintf("%x", vd.res.Out),
-											"want": fmt.Sprintf("%x", c.ExpectedOut(vd.raw, vd.lay))})
-										return
+									otherAuth := rtr.FullHopMAC(rtr.KeyOther, 0x7777, infoTS, 63, 41, 42)
+									judgeValid := func(name string, vd verdict, mustAccept bool) {
+										key := c.Name + "|" + variant + "|" + name
+										r.Case(key, true)
+										if vd.res.Panic != nil {
+											r.Violation("panic", map[string]any{"case": key, "panic": fmt.Sprint(vd.res.Panic)})
+											return
+										}
+										if !mustAccept {
+											return
+										}
+										if !vd.forwarded {
+											r.Violation("fresh-valid-epic-rejected:"+roleX, map[string]any{"case": key, "disp": dispName(vd.res.Fast.Disp),
+												"packet": fmt.Sprintf("%x", vd.raw), "ingress": fmt.Sprint(c.In)})
+											return
+										}
+										if vd.res.Fast.Egress != c.EgressIf || !bytes.Equal(vd.res.Out, c.ExpectedOut(vd.raw, vd.lay)) {
+											r.Violation("epic-output-differs-from-embedded-scion-processing:"+role, map[string]any{"case": key,
+												"egress": vd.res.Fast.Egress, "want_egress": c.EgressIf, "got": fmt.Sprintf("%x", vd.res.Out),
+												"want": fmt.Sprintf("%x", c.ExpectedOut(vd.raw, vd.lay))})
+											return
+										}
+										r.Outcome("accepted:" + role)
 									}
-									r.Outcome("accepted:" + role)
-								}
 
-								if role == "other" {
+									if role == "other" {
+										if phase != 0 {
+											continue
+										}
+										// timestamps / HVFs must not matter; output = SCION processing of the embedded path
+										for _, tm := range []c13Time{{name: "fresh", k: freshK}, {name: "-10s", k: 4619048 - 333334}, {name: "+10s", k: 4809524 + 428571}} {
+											p := mk(tm.k)
+											p.PHVF, p.LHVF = garbage, [4]byte{1, 2, 3, 4}
+											judgeValid("other-hop/"+tm.name+"/garbage-hvf", run(rt, c, &p), true)
+										}
+										// hop MAC defect: same answer as for the SCION carriage (pointer shifted by the 16-byte EPIC header)
+										if ext == 0 && tsv == 0 {
+											pe := mk(freshK)
+											pe.HopRef(c.V[0].Hop).Mac[2] ^= 0x10
+											ps := pe.Clone()
+											ps.PathType = rtr.PathSCION
+											ve, vs := run(rt, c, &pe), run(rt, c, &ps)
+											r.Case(c.Name+"|"+variant+"|other-hop/bad-hop-mac", true)
+											same := ve.res.Fast.Disp == vs.res.Fast.Disp && ve.res.Fast.SPType == vs.res.Fast.SPType &&
+												ve.res.Fast.SPCode == vs.res.Fast.SPCode && (ve.res.Fast.Disp != router.VerifSlowPath ||
+												ve.res.Fast.SPPointer == vs.res.Fast.SPPointer+16)
+											if !same || ve.forwarded {
+												r.Violation("epic-differs-from-scion-on-defective-path:other", map[string]any{"case": c.Name + "|" + variant,
+													"epic":  fmt.Sprintf("%s %d/%d ptr %d", dispName(ve.res.Fast.Disp), ve.res.Fast.SPType, ve.res.Fast.SPCode, ve.res.Fast.SPPointer),
+													"scion": fmt.Sprintf("%s %d/%d ptr %d", dispName(vs.res.Fast.Disp), vs.res.Fast.SPType, vs.res.Fast.SPCode, vs.res.Fast.SPPointer)})
+											} else {
+												r.Outcome("defective-path-same-as-scion")
+											}
+										}
+										continue
+									}
+
+									// ---- penultimate / last hop ----
+									// composite: ingress router (this) + the sibling that owns the egress interface
+									composite := func(vd verdict) (accepted, exact bool, detail string) {
+										if !vd.forwarded {
+											return false, true, "ingress router: " + dispName(vd.res.Fast.Disp)
+										}
+										if checker == "this-router" {
+											return true, true, "this router forwarded"
+										}
+										sib := routers[ci].sibs[cfg.If(c.EgressIf).Owner]
+										res := sib.Process(vd.res.Out, rtr.FromSibling(c.In.IfID))
+										if res.Fast.Disp != router.VerifForward {
+											return false, true, "sibling egress router: " + dispName(res.Fast.Disp)
+										}
+										// expected bytes after the sibling: hop pointer advanced, SegID chained in construction direction
+										want := append([]byte{}, vd.res.Out...)
+										w := binary.BigEndian.Uint32(want[vd.lay.MetaOff:])
+										nh := uint32(v.Hop + 1)
+										ninf, acc := 0, 0
+										for si, sg := range c.Pkt.Segs {
+											if int(nh) >= acc {
+												ninf = si
+											}
+											acc += len(sg.Hops)
+										}
+										w = w&^(0xff<<24) | uint32(ninf)<<30 | nh<<24
+										binary.BigEndian.PutUint32(want[vd.lay.MetaOff:], w)
+										seg := c.Pkt.Segs[v.Inf]
+										peerHop := c.Shape.Peering
+										if seg.ConsDir && !peerHop {
+											m := c.Pkt.HopRef(v.Hop).Mac
+											sid := binary.BigEndian.Uint16(want[vd.lay.InfoOff[v.Inf]+2:]) ^ binary.BigEndian.Uint16(m[:2])
+											binary.BigEndian.PutUint16(want[vd.lay.InfoOff[v.Inf]+2:], sid)
+										}
+										if res.Fast.Egress != c.EgressIf || !bytes.Equal(res.Out, want) {
+											return true, false, fmt.Sprintf("sibling forwarded DIFFERENT bytes/egress: egress %d want %d\n got %x\nwant %x",
+												res.Fast.Egress, c.EgressIf, res.Out, want)
+										}
+										return true, true, "sibling egress router forwarded"
+									}
+
+									// (1) freshness with valid HVF
+									judgeTime := func(name string, p rtr.Pkt, fresh int) {
+										setHVF(&p, c13Inputs(&p, auth(&p)).hvf(), c13Inputs(&p, otherAuth).hvf())
+										vd := run(rt, c, &p)
+										key := c.Name + "|" + variant + "|time" + name
+										if !(fresh == 1 && checker == "this-router") {
+											r.Case(key, true) // (judgeValid counts the other ones)
+										}
+										acc, exact, det := composite(vd)
+										switch fresh {
+										case 1:
+											if checker == "this-router" {
+												judgeValid("time"+name, vd, true)
+											} else if !acc || !exact {
+												r.Violation("fresh-valid-epic-rejected:"+roleX+"/"+checker, map[string]any{"case": key, "what": det})
+											} else {
+												r.Outcome("accepted:" + role + "-via-sibling")
+											}
+										case 0:
+											if acc {
+												r.Violation("stale-or-future-epic-timestamp-accepted:"+roleX, map[string]any{"case": key, "sender_minus_now": name,
+													"what": det, "packet": fmt.Sprintf("%x", vd.raw), "ingress": fmt.Sprint(c.In), "checked_by": checker})
+											} else {
+												r.Outcome("rejected-not-fresh:" + roleX + "/by-" + checker)
+											}
+										case -1:
+											r.Outcome(fmt.Sprintf("boundary-accepted=%v", acc))
+										case -2:
+											r.Outcome(fmt.Sprintf("future-beyond-skew-within-3s-accepted=%v", acc))
+										}
+									}
+									if !set.extremeOnly {
+										for _, tm := range times {
+											if tm.phase != phase {
+												continue
+											}
+											judgeTime(tm.name, mk(tm.k), tm.fresh)
+										}
+									}
+									// (1b) extreme values of the 32-bit packet timestamp x ages of the first info field around them:
+									// sender time = first info timestamp + (EpicTS+1) x 21 us, computed here in 64 bits
+									if phase == 0 && ext == 0 && si == 0 && tsv == 0 {
+										for _, e := range []uint32{0, 1, 0x7fffffff, 0x80000000, 0xfffffffe, 0xffffffff} {
+											k := int64(e) + 1
+											kSec := k * 21 / 1000000
+											ages := []int64{int64(baseSec - set.ts)}
+											if !set.extremeOnly {
+												if !firstSegFree {
+													continue
+												}
+												ages = nil
+												seen := map[int64]bool{}
+												for _, a := range []int64{0, 1, 2, 3, 5, kSec - 5, kSec - 2, kSec, kSec + 1, kSec + 2, kSec + 5} {
+													if a >= 0 && !seen[a] {
+														seen[a] = true
+														ages = append(ages, a)
+													}
+												}
+											}
+											for _, age := range ages {
+												p := mk(k)
+												if !set.extremeOnly {
+													p.Segs[0].TS = baseSec - uint32(age)
+												}
+												// exact offset sender - now in ns (the bubble clock stands at start + 4 us in this phase)
+												delta := k*21000 - age*1000000000 - 4000
+												fresh := -1
+												switch {
+												case delta >= -3000000000+21000 && delta <= 1000000000-21000:
+													fresh = 1
+												case delta < -3000000000-21000 || delta > 3000000000:
+													fresh = 0
+												case delta > 1000000000+21000:
+													fresh = -2
+												}
+												judgeTime(fmt.Sprintf("/epicTS=%#x/first-info-age=%ds/whole-path=%v", e, age, set.extremeOnly), p, fresh)
+												if fresh == 1 {
+													r.Outcome("extreme-epicTS-fresh-accepted")
+												} else if fresh == 0 {
+													r.Outcome("extreme-epicTS-not-fresh-rejected")
+												}
+											}
+										}
+									}
+									if set.extremeOnly {
+										continue
+									}
 									if phase != 0 {
 										continue
 									}
-									// timestamps / HVFs must not matter; output = SCION processing of the embedded path
-									for _, tm := range []c13Time{{name: "fresh", k: freshK}, {name: "-10s", k: 4619048 - 333334}, {name: "+10s", k: 4809524 + 428571}} {
-										p := mk(tm.k)
-										p.PHVF, p.LHVF = garbage, [4]byte{1, 2, 3, 4}
-										judgeValid("other-hop/"+tm.name+"/garbage-hvf", run(rt, c, &p), true)
-									}
-									// hop MAC defect: same answer as for the SCION carriage (pointer shifted by the 16-byte EPIC header)
-									if ext == 0 && tsv == 0 {
-										pe := mk(freshK)
-										pe.HopRef(c.V[0].Hop).Mac[2] ^= 0x10
-										ps := pe.Clone()
-										ps.PathType = rtr.PathSCION
-										ve, vs := run(rt, c, &pe), run(rt, c, &ps)
-										r.Case(c.Name+"|"+variant+"|other-hop/bad-hop-mac", true)
-										same := ve.res.Fast.Disp == vs.res.Fast.Disp && ve.res.Fast.SPType == vs.res.Fast.SPType &&
-											ve.res.Fast.SPCode == vs.res.Fast.SPCode && (ve.res.Fast.Disp != router.VerifSlowPath ||
-											ve.res.Fast.SPPointer == vs.res.Fast.SPPointer+16)
-										if !same || ve.forwarded {
-											r.Violation("epic-differs-from-scion-on-defective-path:other", map[string]any{"case": c.Name + "|" + variant,
-												"epic":  fmt.Sprintf("%s %d/%d ptr %d", dispName(ve.res.Fast.Disp), ve.res.Fast.SPType, ve.res.Fast.SPCode, ve.res.Fast.SPPointer),
-												"scion": fmt.Sprintf("%s %d/%d ptr %d", dispName(vs.res.Fast.Disp), vs.res.Fast.SPType, vs.res.Fast.SPCode, vs.res.Fast.SPPointer)})
+									// (2) HVF deviations on a fresh packet
+									base := mk(freshK)
+									good := c13Inputs(&base, auth(&base))
+									oth := c13Inputs(&base, otherAuth).hvf()
+									reject := func(name string, mine, other [4]byte) {
+										p := base.Clone()
+										setHVF(&p, mine, other)
+										vd := run(rt, c, &p)
+										key := c.Name + "|" + variant + "|" + name
+										r.Case(key, true)
+										if vd.res.Panic != nil {
+											r.Violation("panic", map[string]any{"case": key, "panic": fmt.Sprint(vd.res.Panic)})
+											return
+										}
+										if acc, _, det := composite(vd); acc {
+											r.Violation("invalid-hvf-accepted:"+roleX, map[string]any{"case": key, "deviation": name, "what": det,
+												"packet": fmt.Sprintf("%x", vd.raw), "ingress": fmt.Sprint(c.In), "egress": vd.res.Fast.Egress,
+												"expected_checker": checker, "valid_hvf": fmt.Sprintf("%x", good.hvf())})
 										} else {
-											r.Outcome("defective-path-same-as-scion")
+											r.Outcome("rejected-bad-hvf:" + roleX + "/by-" + checker)
 										}
 									}
-									continue
-								}
-
-								// ---- penultimate / last hop ----
-								// composite: ingress router (this) + the sibling that owns the egress interface
-								composite := func(vd verdict) (accepted, exact bool, detail string) {
-									if !vd.forwarded {
-										return false, true, "ingress router: " + dispName(vd.res.Fast.Disp)
-									}
-									if checker == "this-router" {
-										return true, true, "this router forwarded"
-									}
-									sib := routers[ci].sibs[cfg.If(c.EgressIf).Owner]
-									res := sib.Process(vd.res.Out, rtr.FromSibling(c.In.IfID))
-									if res.Fast.Disp != router.VerifForward {
-										return false, true, "sibling egress router: " + dispName(res.Fast.Disp)
-									}
-									// expected bytes after the sibling: hop pointer advanced, SegID chained in construction direction
-									want := append([]byte{}, vd.res.Out...)
-									w := binary.BigEndian.Uint32(want[vd.lay.MetaOff:])
-									nh := uint32(v.Hop + 1)
-									ninf, acc := 0, 0
-									for si, sg := range c.Pkt.Segs {
-										if int(nh) >= acc {
-											ninf = si
-										}
-										acc += len(sg.Hops)
-									}
-									w = w&^(0xff<<24) | uint32(ninf)<<30 | nh<<24
-									binary.BigEndian.PutUint32(want[vd.lay.MetaOff:], w)
-									seg := c.Pkt.Segs[v.Inf]
-									peerHop := c.Shape.Peering
-									if seg.ConsDir && !peerHop {
-										m := c.Pkt.HopRef(v.Hop).Mac
-										sid := binary.BigEndian.Uint16(want[vd.lay.InfoOff[v.Inf]+2:]) ^ binary.BigEndian.Uint16(m[:2])
-										binary.BigEndian.PutUint16(want[vd.lay.InfoOff[v.Inf]+2:], sid)
-									}
-									if res.Fast.Egress != c.EgressIf || !bytes.Equal(res.Out, want) {
-										return true, false, fmt.Sprintf("sibling forwarded DIFFERENT bytes/egress: egress %d want %d\n got %x\nwant %x",
-											res.Fast.Egress, c.EgressIf, res.Out, want)
-									}
-									return true, true, "sibling egress router forwarded"
-								}
-
-								// (1) freshness with valid HVF
-								for _, tm := range times {
-									if tm.phase != phase {
-										continue
-									}
-									p := mk(tm.k)
-									setHVF(&p, c13Inputs(&p, auth(&p)).hvf(), c13Inputs(&p, otherAuth).hvf())
-									vd := run(rt, c, &p)
-									key := c.Name + "|" + variant + "|time" + tm.name
-									if !(tm.fresh == 1 && checker == "this-router") {
-										r.Case(key, true) // (judgeValid counts the other ones)
-									}
-									acc, exact, det := composite(vd)
-									switch tm.fresh {
-									case 1:
+									// the other AS's field is irrelevant here
+									{
+										p := base.Clone()
+										setHVF(&p, good.hvf(), garbage)
+										vd := run(rt, c, &p)
 										if checker == "this-router" {
-											judgeValid("time"+tm.name, vd, true)
-										} else if !acc || !exact {
-											r.Violation("fresh-valid-epic-rejected:"+roleX+"/"+checker, map[string]any{"case": key, "what": det})
+											judgeValid("other-field-garbage", vd, true)
+										} else if acc, exact, det := composite(vd); !acc || !exact {
+											r.Case(c.Name+"|"+variant+"|other-field-garbage", true)
+											r.Violation("fresh-valid-epic-rejected:"+roleX+"/"+checker, map[string]any{"case": c.Name + "|" + variant, "what": det})
 										} else {
+											r.Case(c.Name+"|"+variant+"|other-field-garbage", true)
 											r.Outcome("accepted:" + role + "-via-sibling")
 										}
-									case 0:
-										if acc {
-											r.Violation("stale-or-future-epic-timestamp-accepted:"+roleX, map[string]any{"case": key, "sender_minus_now": tm.name,
-												"what": det, "packet": fmt.Sprintf("%x", vd.raw), "ingress": fmt.Sprint(c.In), "checked_by": checker})
-										} else {
-											r.Outcome("rejected-not-fresh:" + roleX + "/by-" + checker)
+									}
+									for b := 0; b < 4; b++ {
+										for _, bit := range []byte{0x01, 0x80} {
+											h := good.hvf()
+											h[b] ^= bit
+											reject(fmt.Sprintf("hvf[%d]^%#x", b, bit), h, oth)
 										}
-									case -1:
-										r.Outcome(fmt.Sprintf("boundary%s-accepted=%v", tm.name, acc))
-									case -2:
-										r.Outcome(fmt.Sprintf("future-beyond-skew-within-3s-accepted=%v", acc))
 									}
-								}
-								if phase != 0 {
-									continue
-								}
-								// (2) HVF deviations on a fresh packet
-								base := mk(freshK)
-								good := c13Inputs(&base, auth(&base))
-								oth := c13Inputs(&base, otherAuth).hvf()
-								reject := func(name string, mine, other [4]byte) {
-									p := base.Clone()
-									setHVF(&p, mine, other)
-									vd := run(rt, c, &p)
-									key := c.Name + "|" + variant + "|" + name
-									r.Case(key, true)
-									if vd.res.Panic != nil {
-										r.Violation("panic", map[string]any{"case": key, "panic": fmt.Sprint(vd.res.Panic)})
-										return
+									reject("hvf-fields-swapped", oth, good.hvf())
+									reject("hvf-zero", [4]byte{}, good.hvf())
+									for _, d := range devs {
+										in := good
+										if !d.f(&in, c, &base, cf.key) {
+											continue
+										}
+										if in.hvf() == good.hvf() {
+											continue // 2^-32 collision or a no-op deviation
+										}
+										reject(d.name, in.hvf(), oth)
 									}
-									if acc, _, det := composite(vd); acc {
-										r.Violation("invalid-hvf-accepted:"+roleX, map[string]any{"case": key, "deviation": name, "what": det,
-											"packet": fmt.Sprintf("%x", vd.raw), "ingress": fmt.Sprint(c.In), "egress": vd.res.Fast.Egress,
-											"expected_checker": checker, "valid_hvf": fmt.Sprintf("%x", good.hvf())})
-									} else {
-										r.Outcome("rejected-bad-hvf:" + roleX + "/by-" + checker)
-									}
-								}
-								// the other AS's field is irrelevant here
-								{
-									p := base.Clone()
-									setHVF(&p, good.hvf(), garbage)
-									vd := run(rt, c, &p)
-									if checker == "this-router" {
-										judgeValid("other-field-garbage", vd, true)
-									} else if acc, exact, det := composite(vd); !acc || !exact {
-										r.Case(c.Name+"|"+variant+"|other-field-garbage", true)
-										r.Violation("fresh-valid-epic-rejected:"+roleX+"/"+checker, map[string]any{"case": c.Name + "|" + variant, "what": det})
-									} else {
-										r.Case(c.Name+"|"+variant+"|other-field-garbage", true)
-										r.Outcome("accepted:" + role + "-via-sibling")
-									}
-								}
-								for b := 0; b < 4; b++ {
-									for _, bit := range []byte{0x01, 0x80} {
-										h := good.hvf()
-										h[b] ^= bit
-										reject(fmt.Sprintf("hvf[%d]^%#x", b, bit), h, oth)
-									}
-								}
-								reject("hvf-fields-swapped", oth, good.hvf())
-								reject("hvf-zero", [4]byte{}, good.hvf())
-								for _, d := range devs {
-									in := good
-									if !d.f(&in, c, &base, cf.key) {
-										continue
-									}
-									if in.hvf() == good.hvf() {
-										continue // 2^-32 collision or a no-op deviation
-									}
-									reject(d.name, in.hvf(), oth)
 								}
 							}
 						}
